@@ -14,7 +14,7 @@ EXPLANATION = (
     "(length >= max, no CRLF, short line, request-line error, no header terminator, header error, GET "
     "with body, body shorter than / different from Content-Length) -- a new rejection fails closed; the "
     "accepted value is built from the same atoms (request line slice up to the first CRLF, header block "
-    "between, body after the blank line). Decides these clauses, not field-by-field equality on inputs."
+    "between, body after the blank line); the threshold of the short-line gate is evaluated and does not exceed the shortest acceptable request line. Decides these clauses, not field-by-field equality on inputs."
 )
 TRUSTED = ["slice indexing and find()"]
 ASSUMPTIONS = []
